@@ -415,6 +415,23 @@ func init() {
 				out = append(out, c10Scenario(sp, 1, w1only, pols))
 			}
 		}
+		// lines longer than typical buffer sizes (but within the scanner's 64 KiB token limit), by name and by indentation
+		for _, n := range []int{4090, 4096, 9000} {
+			long := strings.Repeat("x", n)
+			d := docT{fmt.Sprintf("long-name-%d", n), []string{"- a\n  - " + long + "\n", "- b\n  - c\n"}, []int{2, 2}, ""}
+			add(d, "out-text", 1, w2, nil)
+			add(d, "walk", 1, w2, nil)
+		}
+		{
+			// depth 70 with a 64-space unit: the deepest line has 4416 bytes of indentation
+			var sb strings.Builder
+			sb.WriteString("- r\n")
+			for l := 1; l <= 70; l++ {
+				sb.WriteString(strings.Repeat(" ", 64*l) + "- n\n")
+			}
+			d := docT{"deep-wide-indent", []string{sb.String(), "- b\n"}, []int{71, 1}, ""}
+			add(d, "out-text", 1, w2, nil)
+		}
 		// roots whose rendering is larger than a typical I/O buffer (4096 bytes): blocks must stay intact
 		{
 			big := func(r string) string {
